@@ -228,57 +228,10 @@ func runC17(c *kit.Ctx) {
 	exceptionTableOracle(c)
 	probeClassifiesOutcome(c)
 
-	// the connection-level-error cap of SendBatch looks at this round's retry list:
-	// nothing may empty or replace that list between the round's wait and the test
-	if sbFn := p.Func("", "client", "SendBatch"); sbFn != nil {
-		var probes []ssa.CallInstruction
-		kit.Instrs(sbFn, func(in ssa.Instruction) {
-			if call, ok := in.(*ssa.Call); ok && isServerErrorProbe(p, call) {
-				probes = append(probes, call)
-			}
-		})
-		for _, h := range probes {
-			l, ok := kit.Strip(h.Common().Args[0]).(*ssa.UnOp)
-			if !ok {
-				c.Unk(sbFn, "retry-list-fresh", h.Pos(), "hasServerError is not applied to the retry list variable")
-				continue
-			}
-			// the round's wait: the last call of a function literal (or waitForCompletion) that precedes h
-			var wait ssa.Instruction
-			kit.Instrs(sbFn, func(in ssa.Instruction) {
-				if call, ok := in.(*ssa.Call); ok && kit.Dominates(call, h.(ssa.Instruction)) {
-					if cal := kit.StaticCallee(call); cal != nil && (cal.Parent() == sbFn || cal.Name() == "waitForCompletion") {
-						wait = call
-					}
-				}
-			})
-			bad := false
-			if wait != nil {
-				kit.Instrs(sbFn, func(in ssa.Instruction) {
-					st, ok := in.(*ssa.Store)
-					if !ok || st.Addr != l.X {
-						return
-					}
-					e := kit.PathFrom(wait, kit.PathQuery{
-						Target: func(x ssa.Instruction) bool { return x == ssa.Instruction(st) },
-						Stop:   func(x ssa.Instruction) bool { return x == h.(ssa.Instruction) },
-					})
-					if e == nil {
-						return
-					}
-					// ... and from there to the test without starting a new round
-					e2 := kit.PathFrom(st, kit.PathQuery{
-						Target: func(x ssa.Instruction) bool { return x == h.(ssa.Instruction) },
-						Stop:   func(x ssa.Instruction) bool { return x == wait },
-					})
-					if e2 != nil {
-						bad = true
-					}
-				})
-			}
-			c.Check(wait != nil && !bad, sbFn, "retry-list-fresh", h.Pos(), "the ServerError cap examines the retry list exactly as this round's wait left it", "the retry list is reset or replaced between the round's wait and the ServerError test: the test sees an empty list, the bounded-immediate-retry counter never advances and batches failing with connection-level errors are resent without any wait")
-		}
-	}
+	// (removed after fix 6dc62ae: "the retry list must not be emptied between the round's wait and the ServerError
+	// test". Since that repair every round that needs no back-off is capped by one of two counters with the same
+	// bound, whatever the test sees, so emptying the list early no longer makes the loop hot: the rule had become a
+	// false alarm, and the seeded change it was written for - C17-A - was retired as no longer a regression.)
 
 	// the batch's "some call was told to retry later" flag is sticky within a round: once a call of
 	// the round has set it, later results of the round cannot clear it
@@ -569,7 +522,6 @@ func retryLoopsWait(c *kit.Ctx) {
 	p := c.P
 	sleepName := kit.M("", "", "sleepAndIncreaseBackoff")
 	nsre := p.Named("region", "NotServingRegionError")
-	c.Table("C17.R3: a cycle taken only for NotServingRegionError results does not back off (reason: handleResultError marked that region unavailable and started its establisher, so the next getRegionAndClientForRPC blocks on the availability channel; the establisher backs off on this schedule). Precondition re-checked: handleResultError's NotServingRegionError case calls MarkUnavailable on the failed region.")
 	// precondition of the table entry
 	hre := c.Anchor("", "client", "handleResultError")
 	preOK := false
@@ -635,23 +587,11 @@ func retryLoopsWait(c *kit.Ctx) {
 				return true
 			}
 			facts := kit.EdgeFacts(from, to)
-			for _, f := range facts {
-				// (b) tabled: NotServingRegionError-only edge
-				if f.Pol && preOK {
-					if ex, ok := f.Cond.(*ssa.Extract); ok && ex.Index == 1 {
-						if ta, ok := ex.Tuple.(*ssa.TypeAssert); ok && ta.CommaOk && nsre != nil && types.Identical(ta.AssertedType, nsre) {
-							tabledUsed++
-							return true
-						}
-					}
-				}
-				if !f.Pol && preOK {
-					if call, ok := f.Cond.(*ssa.Call); ok && isServerErrorProbe(p, call) && nsreOnlyRound(fn, facts) {
-						tabledUsed++
-						return true
-					}
-				}
-			}
+			// (b) there is no tabled exception any more: the NotServingRegionError-only cycles of SendRPC and SendBatch
+			// used to be exempt on the argument that the region's establisher backs off. That argument was wrong
+			// (the establisher's first attempt is immediate, and a region can pass its probe while it refuses the
+			// request: fix 6dc62ae); those cycles are now bounded by a counter like the ServerError ones.
+			_ = facts
 			// (a) counter-bounded: this edge is the false edge of "counter > K"
 			if len(from.Instrs) > 0 {
 				if iff, ok := from.Instrs[len(from.Instrs)-1].(*ssa.If); ok && from.Succs[1] == to && from.Succs[0] != to {
